@@ -229,24 +229,41 @@ func (av arrayValue) PropertyValue(iv Value) Value {
 
 func (mv mapValue) Contains(iv Value) bool {
 	mr := reflect.ValueOf(mv.value)
-	ir := reflect.ValueOf(iv.Interface())
-	if ir.IsValid() && mr.Type().Key() == ir.Type() && ir.Comparable() {
-		return mr.MapIndex(ir).IsValid()
+	if kr, ok := mapKey(reflect.ValueOf(iv.Interface()), mr.Type().Key()); ok {
+		return mr.MapIndex(kr).IsValid()
 	}
 	return false
 }
 
 func (mv mapValue) IndexValue(iv Value) Value {
 	mr := reflect.ValueOf(mv.value)
-	ir := reflect.ValueOf(iv.Interface())
-	kt := mr.Type().Key()
-	if ir.IsValid() && keyConvertible(ir.Type(), kt) && ir.Comparable() {
-		er := mr.MapIndex(ir.Convert(kt))
+	if kr, ok := mapKey(reflect.ValueOf(iv.Interface()), mr.Type().Key()); ok {
+		er := mr.MapIndex(kr)
 		if er.IsValid() {
 			return ValueOf(er.Interface())
 		}
 	}
 	return nilValue
+}
+
+// mapKey returns the key of type kt that the index ir stands for, if any. Indexing, property
+// lookup and contains all look a key up in this way.
+func mapKey(ir reflect.Value, kt reflect.Type) (reflect.Value, bool) {
+	if !ir.IsValid() || !keyConvertible(ir.Type(), kt) || !ir.Comparable() {
+		return reflect.Value{}, false
+	}
+	kr := ir.Convert(kt)
+	switch kt.Kind() {
+	case reflect.Int, reflect.Int8, reflect.Int16, reflect.Int32, reflect.Int64,
+		reflect.Uint, reflect.Uint8, reflect.Uint16, reflect.Uint32, reflect.Uint64, reflect.Uintptr,
+		reflect.Float32, reflect.Float64:
+		// a number stands for a numeric key only when the conversion keeps its value: 1.5 is not
+		// the key 1, nor 300 the uint8 key 44
+		if !Equal(kr.Interface(), ir.Interface()) {
+			return reflect.Value{}, false
+		}
+	}
+	return kr, true
 }
 
 // keyConvertible reports whether an index of type t can stand for a map key of type kt: a string for a
@@ -269,8 +286,8 @@ func (mv mapValue) PropertyValue(iv Value) Value {
 		return nilValue
 	}
 	var er reflect.Value
-	if kt := mr.Type().Key(); keyConvertible(ir.Type(), kt) && ir.Comparable() {
-		er = mr.MapIndex(ir.Convert(kt))
+	if kr, ok := mapKey(ir, mr.Type().Key()); ok {
+		er = mr.MapIndex(kr)
 	}
 	switch {
 	case er.IsValid():
